@@ -7,6 +7,7 @@ package comp
 import (
 	"bytes"
 	"fmt"
+	"os"
 	"runtime"
 	"runtime/debug"
 	"sort"
@@ -144,15 +145,20 @@ func compileWatched(src string, o *Options, lim Limits, sh *Shared) Result {
 	// runtime's own time-slice preemption never triggers): the interleaving of the compiler's
 	// goroutines is then a function of SchedSeed and the input - as repeatable as the Go run
 	// queue allows without a scheduler of our own.
+	// (both are stop-the-world operations: every call starts from the same scheduler state -
+	// run queues merged, nothing running on another processor)
 	prevProcs := runtime.GOMAXPROCS(1)
 	prevGC := debug.SetGCPercent(-1)
 	ss := rng.H(SchedSeed, rng.HashStr(src), boolWord(o.Optimize), boolWord(o.Lint))
 	den := []uint64{0, 1, 2, 8, 64, 512}[ss%6]
 	simhook.YieldFn = func(tick int64) bool {
-		if tick%1024 == 0 {
+		if tick > 0 && tick%1024 == 0 {
 			return true
 		}
-		return den != 0 && rng.H(ss, uint64(tick))%den == 0
+		if tick > 1<<16 || tick < -(1<<16) {
+			return false // a runaway call: no point in interleaving it finely all the way to its budget
+		}
+		return den != 0 && rng.H(ss, uint64(tick))%den == 0 // tick < 0: the -n-th function entry
 	}
 	defer func() {
 		simhook.YieldFn = nil
@@ -167,15 +173,45 @@ func compileWatched(src string, o *Options, lim Limits, sh *Shared) Result {
 		done <- compile1(src, o, lim, sh)
 	}()
 	var res Result
+	select { // drop a stale signal of an earlier call
+	case <-simhook.GoFailed:
+	default:
+	}
 	t := time.NewTimer(stallSample)
 	last, still := int64(-1), 0
+	failed := 0
 wait:
 	for {
 		select {
 		case res = <-done:
 			t.Stop()
 			break wait
+		case <-simhook.GoFailed:
+			// a goroutine of the compiler panicked (in the real program: the process dies). Give
+			// the rest a moment to finish; if the caller stays parked, report the panic now.
+			failed = 1
+			t.Reset(5 * time.Millisecond)
 		case <-t.C:
+			if failed > 0 {
+				failed++
+				if failed > 4 && blockedForGood(atomic.LoadInt64(&gid)) || failed > 40 {
+					res = Result{Ticks: atomic.LoadInt64(&simhook.Ticks)}
+					if r := simhook.TakeGoFailure(); r != nil {
+						if b, ok := r.(simhook.BudgetExceeded); ok {
+							res.Budget = b.Kind
+						} else {
+							res.Panic = "in a goroutine started by the compiler: " + fmt.Sprint(r)
+						}
+					} else {
+						res.Budget = "deadlock"
+					}
+					simhook.TickBudget = 0
+					simhook.DepthBudget = 0
+					return res
+				}
+				t.Reset(5 * time.Millisecond)
+				continue
+			}
 			cur := atomic.LoadInt64(&simhook.Ticks)
 			if cur == last && blockedForGood(atomic.LoadInt64(&gid)) {
 				still++
@@ -186,6 +222,9 @@ wait:
 			if still >= 4 {
 				// no loop iteration anywhere for 4 samples and the calling goroutine is parked on a
 				// channel / WaitGroup / mutex: nothing is left that could wake it
+				if os.Getenv("VERIF_DEBUG_DEADLOCK") != "" {
+					fmt.Fprintf(os.Stderr, "DEADLOCK lint=%v src=%q\n", o.Lint, src)
+				}
 				res = Result{Budget: "deadlock", Ticks: cur}
 				simhook.TickBudget = 0
 				simhook.DepthBudget = 0
@@ -205,8 +244,15 @@ wait:
 		res.Err = nil
 	}
 	// goroutines that outlive the call (a short grace lets finished ones exit)
+	// Let the goroutines of this call run to their end before the next call starts: on one
+	// processor Gosched hands over to each runnable goroutine in queue order, without any
+	// dependence on wall-clock time. Only what is still alive after that gets a real-time grace.
 	n := runtime.NumGoroutine()
-	for i := 0; i < 200 && n > before; i++ {
+	for i := 0; i < 4000 && n > before; i++ {
+		runtime.Gosched()
+		n = runtime.NumGoroutine()
+	}
+	for i := 0; i < 50 && n > before; i++ {
 		time.Sleep(100 * time.Microsecond)
 		n = runtime.NumGoroutine()
 	}
